@@ -6,3 +6,5 @@ import Prism.Proofs.C15
 #print axioms Prism.Img.C15_ycbcr_nrgba
 #print axioms Prism.Img.C15_nrgba_opaque
 #print axioms Prism.Img.C15_nrgba_transparent
+#print axioms Prism.Img.C15_draw_nrgba_is_model_on_valid
+#print axioms Prism.Img.C15_draw_nrgba_keeps_colour_at_alpha_zero
